@@ -364,7 +364,11 @@ GroupFrom(keys, n, acc) ==
                  IN GroupFrom(keys, n + 1, [acc EXCEPT ![k] = <<@[1], Append(@[2], n)>>])
 GroupsOf(keys) == LET g == GroupFrom(keys, 1, <<>>) IN [k \in Idx(g) |-> g[k][2]]
 
-(* stable insertion sort of positions 1..Len(v) by value (numpy argsort, n <= 16: insertion sort) *)
+(* stable insertion sort of positions 1..Len(v) by value.  numpy's argsort is NOT stable (SIMD   *)
+(* sorting networks even for a handful of values), so where equal values carry different weights  *)
+(* weighted_median's result depends on an unspecified order; Determined says when it does not     *)
+Determined(v, w) == \/ \A i, j \in Idx(v) : v[i] = v[j]
+                    \/ \A i, j \in Idx(v) : v[i] = v[j] => w[i] = w[j]
 RECURSIVE InsPos(_, _, _)
 InsPos(v, sorted, p) == IF sorted = <<>> THEN <<p>>
                         ELSE IF v[p] < v[Head(sorted)] THEN <<p>> \o sorted
@@ -407,7 +411,10 @@ SquashRegion(cols, a, g) ==
         c1 == IF ~has1 THEN 0
               ELSE IF W > 0 THEN WeightedMedian([k \in Idx(kn) |-> rows[kn[k]].c1], [k \in Idx(kn) |-> rows[kn[k]].w])
               ELSE Median([k \in 1..n |-> rows[k].c1])
-    IN [c |-> rows[1].c, s |-> rows[1].s, e |-> rows[n].e, lq |-> lq,
+        cnok == \/ W = 0
+                \/ /\ cols.cn => Determined(cnv, wv)
+                   /\ has1 => Determined([k \in Idx(kn) |-> rows[kn[k]].c1], [k \in Idx(kn) |-> rows[kn[k]].w])
+    IN [c |-> rows[1].c, s |-> rows[1].s, e |-> rows[n].e, lq |-> lq, cnok |-> cnok,
         p |-> SumAll([k \in 1..n |-> rows[k].p]), w |-> W,
         cn |-> cn, m1 |-> has1, c1 |-> c1, m2 |-> has1, c2 |-> IF has1 THEN cn - c1 ELSE 0]   \* cn2 = cn - cn1
 
@@ -432,18 +439,18 @@ AStepsFrom(order, k, tab, cols) ==
 ACallSteps(a, cols, filters) == AStepsFrom(CallOrder(filters), 1, a, cols)
 
 (* ---------------------------------------------------------------- drift --------------- *)
-(* weighted_median's sort is stable only for short arrays; compare cn where it is determined *)
-RowMatches(cols, o, x, short) ==
+(* cn / cn1 / cn2 are compared where weighted_median's result does not depend on the sort order *)
+RowMatches(cols, o, x) ==
     /\ <<o.c, o.s, o.e, o.p, o.w>> = <<x.c, x.s, x.e, x.p, x.w>>
     /\ o.bad = 0
     /\ Close(o.lh, o.ll, x.lq)
-    /\ (cols.cn /\ short) => /\ o.cn = x.cn
-                             /\ cols.al => (o.m1 = x.m1 /\ o.m2 = x.m2 /\ (x.m1 => (o.c1 = x.c1 /\ o.c2 = x.c2)))
+    /\ (cols.cn /\ x.cnok) => /\ o.cn = x.cn
+                              /\ cols.al => (o.m1 = x.m1 /\ o.m2 = x.m2 /\ (x.m1 => (o.c1 = x.c1 /\ o.c2 = x.c2)))
 StepDrift(f, cols, a, out, err) ==
     /\ err = ""
     /\ LET t == AFilter(f, cols, a) IN
        \/ Len(t) # Len(out)
-       \/ \E k \in Idx(t) : ~RowMatches(cols, out[k], t[k], Len(a) <= 16)
+       \/ \E k \in Idx(t) : ~RowMatches(cols, out[k], t[k])
 Drift(r) ==
     IF IsDirect(r) THEN StepDrift(r.f, r.cols, r.a, r.out, r.err)
     ELSE r.err = "" /\ \E k \in Idx(r.steps) :
@@ -465,12 +472,17 @@ AllelicBridge(f, cols, a) ==
           /\ NoCountedChange(a, i, j)
           /\ \/ a[i].m1 /\ a[j].m1 /\ a[i].c1 # a[j].c1 /\ \A n \in (i+1)..(j-1) : ~a[n].m1
              \/ a[i].m2 /\ a[j].m2 /\ a[i].c2 # a[j].c2 /\ \A n \in (i+1)..(j-1) : ~a[n].m2
-(* FractionalLevel: the `cn` filter is given neighbouring rows of one chromosome whose cn    *)
-(* differ by a non-integer amount (cn is fractional after an earlier filter took the          *)
-(* weighted median of a mixed run); astype(int) in enumerate_changes truncates the change.    *)
+(* FractionalLevel: the `cn` filter is given neighbouring rows of one chromosome whose cn (or  *)
+(* known cn1 / cn2) differ by a non-integer amount -- the values are fractional after an       *)
+(* earlier filter took the weighted median of a mixed run; astype(int) in enumerate_changes    *)
+(* truncates the running sum of changes, so such a change may not be counted.                  *)
 FractionalLevel(f, cols, a) ==
     /\ f = "cn"
-    /\ \E n \in 1..Len(a)-1 : a[n].c = a[n+1].c /\ Abs(a[n].cn - a[n+1].cn) % CS # 0
+    /\ \E n \in 1..Len(a)-1 :
+          /\ a[n].c = a[n+1].c
+          /\ \/ Abs(a[n].cn - a[n+1].cn) % CS # 0
+             \/ cols.al /\ a[n].m1 /\ a[n+1].m1 /\ Abs(a[n].c1 - a[n+1].c1) % CS # 0
+             \/ cols.al /\ a[n].m2 /\ a[n+1].m2 /\ Abs(a[n].c2 - a[n+1].c2) % CS # 0
 StepTrigger(t, f, cols, a) ==
     CASE t = "AllelicBridge" -> AllelicBridge(f, cols, a)
       [] t = "FractionalLevel" -> FractionalLevel(f, cols, a)
